@@ -103,7 +103,7 @@ CHECKS = {
             "DESIGN.md 3/C08"),
     "C20": ("P2S+XH", "AST->z3 symbolic execution of the real kernels (mathematical ints), unsat per path; CrossHair for the str front end",
             "bounded model checking with an explicit bound: all 2**128 uuid values and all 22-character strings over all code points are covered "
-            "by z3 (unsat on every path of the real source translated at run time); other lengths up to the stated bound; strings around the 2**128 boundary through the real uuid.UUID; counterexamples replayed on the real functions",
+            "by z3 (unsat on every path of the real source translated at run time); other lengths up to the stated bound; strings around the 2**128 boundary through the real uuid.UUID; call histories (every ordered pair of digit counts encoded one after the other in one process, against a reference encoder); counterexamples replayed on the real functions",
             "z3 Int == Python int; uuid.UUID stubbed by its documented contract (validated concretely each run); translator validated on the repo's test vector and boundary values each run",
             "DESIGN.md 3/C20"),
 }
